@@ -196,6 +196,19 @@ def run(run: common.Run):
             run.fail(case, f'KernelModel.fit raised {type(ex).__name__}: {ex}', signature=dict(kind='fit-raises'))
             continue
         run.evaluations += 1
+        if norm is not None:
+            # the block normalisation by its definition: std ratio and first-percentile offset over the JOINTLY valid pixels
+            jmask = np.array(case['sm'], dtype=bool) & np.array(case['rm'], dtype=bool)
+            if jmask.any():
+                sj = np.array(case['src'], dtype='float32')[jmask]
+                rj = np.array(case['ref'], dtype='float32')[jmask]
+                with np.errstate(all='ignore'):
+                    d0 = float(np.std(rj) / np.std(sj))
+                    d1 = float(np.percentile(rj, 1) - np.percentile(sj, 1) * d0)
+                if np.isfinite(d0) and np.isfinite(d1) and np.all(np.isfinite(norm)) and \
+                        (abs(norm[0] - d0) > 1e-5 * max(1.0, abs(d0)) or abs(norm[1] - d1) > 1e-4 * max(1.0, abs(d1))):
+                    run.fail(case, f'block normalisation (gain, offset) = ({norm[0]:.6g}, {norm[1]:.6g}); std ratio and first-percentile offset over '
+                             f'the {int(jmask.sum())} jointly valid pixels are ({d0:.6g}, {d1:.6g})', signature=dict(kind='block-norm'))
         if norm is not None and not (np.all(np.isfinite(norm)) and norm[0] != 0):
             run.hist['degenerate block normalisation (std = 0 or no valid pixel): skipped'] += 1
             continue
